@@ -29,7 +29,8 @@ def parseArgs (j : Json) : Except String Args := do
     | _ => none
   return { src := getHexD a "src", dst := getHexD a "dst", cdc := getBoolD a "cdc" false, follow := getBoolD a "follow" false,
            replace := getBoolD a "replace" false, inc := P.parsePatterns inc, exc := P.parsePatterns exc, chown := chown,
-           mode := (a.getObjValAs? Nat "mode").toOption, utime := (getInt a "utime").toOption }
+           mode := (a.getObjValAs? Nat "mode").toOption, utime := (getInt a "utime").toOption,
+           modeStr := match a.getObjValAs? String "modestr" with | .ok m => some (m.toUTF8.toList.map (·.toNat)) | .error _ => none }
 
 def nodeJ (n : C.Node) : Json :=
   jobj [("p", jhex n.path), ("mode", toJson n.st.mode), ("uid", toJson n.st.uid), ("gid", toJson n.st.gid),
@@ -61,9 +62,22 @@ def hCopy (j : Json) : Except String Json := do
       | .ok (.arr af) => do let t ← af.toList.mapM parseSnap; pure (landOn t)
       | _ => pure Json.null
     pure [("land1", l1), ("land2", l2), ("land3", l3)]
-  match srcRel, dstRel with
-  | some s, some d =>
-    match expectedCopy a src before s d hasBase with
+  let wild := getBoolD ((j.getObjVal? "args").toOption.getD .null) "wild" false
+  -- wildcard sources: the literal prefix is resolved, the rest is matched below it
+  let srcsOpt : Option (List (Path × Path)) :=
+    if wild && FL.containsWildcards a.src then
+      let (d1, d2) := splitWild a.src
+      match resolveIn src d1 a.follow with
+      | some base =>
+        let ms := wildMatches src base d2
+        -- each match goes through rootPath again (final component followed iff follow-links)
+        some (ms.filterMap fun m => (resolveIn src m a.follow).map fun r => (r, m))
+      | none => none
+    else srcRel.map fun s => [(s, a.src)]
+  match srcsOpt, dstRel with
+  | some [], some _ => return jobj ([("res", Json.str "err"), ("why", "no matches found")] ++ lands)
+  | some srcs, some d =>
+    match expectedCopyMulti a src before srcs d hasBase with
     | .err w => return jobj ([("res", Json.str "err"), ("why", toJson w)] ++ lands)
     | .ok tree notif =>
       -- C16: the reference filter of C10 (stateless matcher) on the source tree vs the parent-result walk the copy follows
@@ -77,6 +91,6 @@ def hCopy (j : Json) : Except String Json := do
         let after ← af.toList.mapM parseSnap
         return jobj (base ++ verdictJ "cmp" (cmpTree tree after))
       | _ => return jobj base
-  | _, _ => return jobj [("res", "err"), ("why", "path resolution loops")]
+  | _, _ => return jobj ([("res", Json.str "err"), ("why", "path resolution loops")] ++ lands)
 
 end Drv
